@@ -60,7 +60,8 @@ TNames == {Types[i].name : i \in DOMAIN Types}
 OrSets == { <<TRef("@I"), TRef("@S")>>, <<IdV("integer"), IdV("string")>>, <<TRef("@O"), IdV("integer")>>,
             <<SetV(<<R("type", IdV("integer")), R("min", NV(N0))>>), SetV(<<R("type", IdV("string")), R("maxLength", NV(N2))>>)>>,
             <<IdV("integer"), IdV("float")>>, <<TRef("@I"), TRef("@F")>>, <<SetV(<<R("type", TRef("@I"))>>), SetV(<<R("type", IdV("null"))>>)>>,
-            <<IdV("boolean"), TRef("@U")>> }
+            <<IdV("boolean"), TRef("@U")>>,
+            <<SetV(<<R("enum", ListV(<<[t |-> "val", v |-> NumD(N1)], [t |-> "val", v |-> NumD(N2)]>>))>>), SetV(<<R("type", IdV("string"))>>)>> }    \* an enum inside a rule set
 RefPositions ==
      {Ref(<<t>>, n) : t \in TNames \ {"@K", "@K2"}, n \in {<<>>, <<NullR>>}}
 \cup {Ref(<<"@I", "@S">>, <<>>), Ref(<<"@I", "@O">>, <<NullR>>), Ref(<<"@O", "@Q">>, <<>>), Ref(<<"@U", "@F">>, <<>>), Ref(<<"@L", "@Rec">>, <<>>)}
